@@ -185,11 +185,19 @@ class Mod:
             self.functions[st.name] = FuncInfo(st, None, self)
         elif isinstance(st, ast.Assign):
             for t in st.targets:
+                if isinstance(t, ast.Attribute) and isinstance(t.value, ast.Name) and t.value.id in self.classes:
+                    # `Cls.TABLE = {...}` after the class body (an Enum cannot hold a plain table in its body): a class attribute
+                    self.classes[t.value.id].consts.setdefault(t.attr, st.value)
+                    self.classes[t.value.id].late_attrs = getattr(self.classes[t.value.id], "late_attrs", set()) | {t.attr}
+                    continue
                 for nm, val in _unpack_targets(t, st.value):
                     self.consts[nm] = val
         elif isinstance(st, ast.AnnAssign) and st.value is not None:
             if isinstance(st.target, ast.Name):
                 self.consts[st.target.id] = st.value
+            elif isinstance(st.target, ast.Attribute) and isinstance(st.target.value, ast.Name) and st.target.value.id in self.classes:
+                self.classes[st.target.value.id].consts.setdefault(st.target.attr, st.value)
+                self.classes[st.target.value.id].late_attrs = getattr(self.classes[st.target.value.id], "late_attrs", set()) | {st.target.attr}
         elif isinstance(st, ast.ImportFrom):
             for a in st.names:
                 self.imports[a.asname or a.name] = (st.level, st.module, a.name)
